@@ -408,15 +408,28 @@ class Minor(object):
         t = self._t
         # Time since perihelion
         t_peri = epoch - t
-        # Now, compute the mean anomaly, in degrees
-        m = t_peri * n
-        m = Angle(m)
-        # With the mean anomaly, use Kepler's equation to find E and v
-        ee, v = kepler_equation(e, m)
-        ee = Angle(ee).to_positive()
-        # Get r
-        er = ee.rad()
-        r = a * (1.0 - e * cos(er))
+        if abs(e - 1.0) < self._tol:
+            # Parabolic case
+            q = self._q
+            ww = (0.03649116245 * t_peri) / (q * sqrt(q))
+            sp = ww / 3.0
+            iterate = True
+            while iterate:
+                s = (2.0 * sp * sp * sp + ww) / (3.0 * (sp * sp + 1.0))
+                iterate = abs(s - sp) > self._tol
+                sp = s
+            v = Angle(2.0 * atan(s), radians=True)
+            r = q * (1.0 + s * s)
+        else:
+            # Now, compute the mean anomaly, in degrees
+            m = t_peri * n
+            m = Angle(m)
+            # With the mean anomaly, use Kepler's equation to find E and v
+            ee, v = kepler_equation(e, m)
+            ee = Angle(ee).to_positive()
+            # Get r
+            er = ee.rad()
+            r = a * (1.0 - e * cos(er))
         # Compute the heliocentric rectangular ecliptical coordinates
         wr = w.rad()
         vr = Angle(v).rad()
